@@ -10,7 +10,9 @@ package pipeline
 import (
 	"encoding/json"
 	"os"
+	"runtime"
 	"sync"
+	"sync/atomic"
 	"testing"
 	"time"
 )
@@ -123,6 +125,77 @@ func c04CommitRace(trial int, d time.Duration) c04StreamResult {
 	return res
 }
 
+// LockOrder.tla on the real streamer: many streams, each held by a "processor" that keeps asking for the next sequential event
+// (blockGet), the "input" delivering the next line as soon as the previous one was taken, the real heartbeat goroutine running.
+// The event time-out is an hour: the heartbeat only LOOKS at the blocked streams.  Every put must reach its waiting processor;
+// the flow must never stop (a stop of 1.5 s with nothing delivered anywhere = wedged).
+func c04BlockedFlow(trial int, d time.Duration) c04StreamResult {
+	res := c04StreamResult{Scenario: "blocked-streams-keep-flowing", Trial: trial, OK: true}
+	const streamsN = 48
+	if prev := runtime.GOMAXPROCS(0); prev < 4 {
+		runtime.GOMAXPROCS(4)
+		defer runtime.GOMAXPROCS(prev)
+	}
+	s := newStreamer(time.Hour)
+	s.start()
+	defer s.shouldStop.Store(true)
+	var delivered int64
+	stop := make(chan struct{})
+	acks := make([]chan struct{}, streamsN)
+	for i := 0; i < streamsN; i++ {
+		acks[i] = make(chan struct{}, 1)
+		st := s.getStream(StreamID(i), "stdout")
+		go func(st *stream, ack chan struct{}) {
+			for {
+				st.put(&Event{})
+				select {
+				case <-ack:
+				case <-stop:
+					return
+				}
+				runtime.Gosched()
+			}
+		}(st, acks[i])
+	}
+	for i := 0; i < streamsN; i++ {
+		go func() {
+			st := s.joinStream()
+			if st == nil {
+				return
+			}
+			for {
+				event := st.blockGet()
+				st.commit(event)
+				atomic.AddInt64(&delivered, 1)
+				select {
+				case acks[st.streamID] <- struct{}{}:
+				case <-stop:
+					return
+				}
+			}
+		}()
+	}
+	deadline := time.Now().Add(d)
+	last := atomic.LoadInt64(&delivered)
+	lastChange := time.Now()
+	for time.Now().Before(deadline) {
+		time.Sleep(50 * time.Millisecond)
+		cur := atomic.LoadInt64(&delivered)
+		if cur != last {
+			last, lastChange = cur, time.Now()
+			continue
+		}
+		if time.Since(lastChange) > 1500*time.Millisecond {
+			res.OK = false
+			res.What = "no event reached any of the waiting processors for 1.5 s: the blocked streams are wedged"
+			break
+		}
+	}
+	close(stop)
+	res.Rounds = int(atomic.LoadInt64(&delivered))
+	return res
+}
+
 func TestVerifC04Stream(t *testing.T) {
 	out := os.Getenv("VERIF_OUT")
 	if out == "" {
@@ -134,6 +207,11 @@ func TestVerifC04Stream(t *testing.T) {
 		rs = append(rs, c04CommitWindow(100+trial, false))
 	}
 	rs = append(rs, c04CommitRace(0, 1500*time.Millisecond))
+	flow := 4 * time.Second
+	if os.Getenv("VERIF_TIER") == "thorough" {
+		flow = 15 * time.Second
+	}
+	rs = append(rs, c04BlockedFlow(0, flow))
 	b, _ := json.Marshal(rs)
 	if err := os.WriteFile(out, b, 0o644); err != nil {
 		t.Fatal(err)
